@@ -43,6 +43,11 @@ class PuppetError2(RuntimeError):
     pass
 
 
+# variants of the `raise` op: ['raise'] PuppetError, ['raise', 'rt'] a RuntimeError, ['raise', 'ce'] asyncio.CancelledError raised by
+# the handler's own code although nobody cancelled it (what a handler sees when something it awaits was cancelled by a third party)
+_RAISES = {'rt': PuppetError2, 'ce': asyncio.CancelledError}
+
+
 _EVENT_CLASSES = {}
 
 
@@ -361,7 +366,7 @@ def make_sync_handler(rec, hdef, bus):
                 elif k == 'rb':
                     _read_bus(rec, act, event)
                 elif k == 'raise':
-                    ex = (PuppetError2 if op[1:] and op[1] == 'rt' else PuppetError)('raised by %s' % hdef['id'])
+                    ex = _RAISES.get(op[1] if op[1:] else '', PuppetError)('raised by %s' % hdef['id'])
                     rec.raised['a%d' % act] = ex
                     raise ex
                 elif k == 'ret':
@@ -372,7 +377,7 @@ def make_sync_handler(rec, hdef, bus):
                 else:
                     raise AssertionError('op %r not allowed in a sync handler' % (op,))
         except BaseException as ex:
-            _exit(rec, act, 'raise' if isinstance(ex, Exception) else 'cancel')
+            _exit(rec, act, 'raise' if isinstance(ex, Exception) or rec.raised.get('a%d' % act) is ex else 'cancel')
             raise
         _exit(rec, act, 'retexc' if isinstance(ret, BaseException) else 'ret')
         return ret
@@ -465,7 +470,7 @@ def make_async_handler(rec, hdef, bus):
                 elif k == 'rb':
                     _read_bus(rec, act, event)
                 elif k == 'raise':
-                    ex = (PuppetError2 if op[1:] and op[1] == 'rt' else PuppetError)('raised by %s' % hdef['id'])
+                    ex = _RAISES.get(op[1] if op[1:] else '', PuppetError)('raised by %s' % hdef['id'])
                     rec.raised['a%d' % act] = ex
                     raise ex
                 elif k == 'ret':
@@ -475,8 +480,8 @@ def make_async_handler(rec, hdef, bus):
                     break
                 else:
                     raise AssertionError('unknown op %r' % (op,))
-        except asyncio.CancelledError:
-            _exit(rec, act, 'cancel')
+        except asyncio.CancelledError as ex:
+            _exit(rec, act, 'raise' if rec.raised.get('a%d' % act) is ex else 'cancel')
             raise
         except vloop.LoopAbort:
             raise
